@@ -24,6 +24,11 @@ structure Mon where
   maxHL : Nat := 16777216
   prevAct : Nat := 0
   prevMx : Nat := 0
+  /-- the property's own notion of the highest stream id that was LEGAL when it arrived (odd, above
+  every earlier legal id, header block accepted untruncated by the framer) — computed from the ops the
+  client sent, never from the server's `maxStreamID` field: whatever the server then does with such a
+  request (415, 400, REFUSED_STREAM, 405, deadline, handler), its id is used up -/
+  hi : Nat := 0
   goAway : Bool := false
 
 structure DS where
@@ -137,7 +142,7 @@ def monitor (m : Mon) (fs : List String) (line : String) : Mon × String :=
           | some id, some raw =>
             if !im.started.isEmpty then
               if m.goAway then "VIOL handler ran after the server sent GOAWAY"
-              else if id % 2 != 1 || id ≤ m.prevMx then s!"VIOL handler ran for illegal stream id {id} (highest accepted {m.prevMx})"
+              else if id % 2 != 1 || id ≤ max m.prevMx m.hi then s!"VIOL handler ran for illegal stream id {id} (highest id used before: {max m.prevMx m.hi})"
               else if m.prevAct ≥ m.maxStreams then s!"VIOL handler ran although {m.prevAct} streams were active (MaxConcurrentStreams {m.maxStreams})"
               else match illegalReason raw with
                 | some why => s!"VIOL handler ran for a request with {why}"
@@ -145,14 +150,22 @@ def monitor (m : Mon) (fs : List String) (line : String) : Mon × String :=
             else
               -- excess streams get RST_STREAM(REFUSED_STREAM)
               let framerOK := match framer m.maxHL raw with | .ok _ tr => !tr | .streamErr => false
-              if !m.goAway && !im.closed && id % 2 == 1 && id > m.prevMx && framerOK && headerLegalB false raw
+              if !m.goAway && !im.closed && id % 2 == 1 && id > max m.prevMx m.hi && framerOK && headerLegalB false raw
                   && m.prevAct ≥ m.maxStreams && !im.ev.contains s!"R{id}:7" then
                 s!"VIOL stream {id} arrived with {m.prevAct} active streams (limit {m.maxStreams}) and was not refused with REFUSED_STREAM"
               else "ok"
           | _, _ => "-"
         | _ =>
           if !im.started.isEmpty then "VIOL a handler started on an op that is not a HEADERS frame" else "ok"
-    let m := { m with prevAct := im.act.getD m.prevAct, prevMx := im.mx.getD m.prevMx, goAway := m.goAway || sawGoAway }
+    let hi := match fs with
+      | "hdr" :: id :: _ :: rest =>
+        match id.toNat?, rest.mapM parseFieldTok with
+        | some id, some raw =>
+          let framerOK := match framer m.maxHL raw with | .ok _ tr => !tr | .streamErr => false
+          if id % 2 == 1 && id > m.hi && framerOK then id else m.hi
+        | _, _ => m.hi
+      | _ => m.hi
+    let m := { m with prevAct := im.act.getD m.prevAct, prevMx := (match im.mx with | some 4294967295 => m.prevMx | some v => v | none => m.prevMx), goAway := m.goAway || sawGoAway, hi := hi }
     (m, verdict)
 
 /-! ### step -/
